@@ -121,6 +121,12 @@ pub fn rand_word(rng: &mut Rng) -> String {
 }
 
 fn rand_word_base(rng: &mut Rng) -> String {
+    // what a change to the code introduced comes first
+    let dn = dict_new();
+    if !dn.is_empty() && rng.chance(1, 3) {
+        let w = &dn[rng.below(dn.len())];
+        if !w.chars().any(|c| c.is_whitespace() || c == ')' || c == '\'' || c == '"') { return w.clone(); }
+    }
     let d = dict();
     if !d.is_empty() && rng.chance(1, 5) {
         let w = &d[rng.below(d.len())];
@@ -379,6 +385,8 @@ pub fn rand_string(rng: &mut Rng, hostile: bool) -> String {
 }
 
 fn rand_string_base(rng: &mut Rng, hostile: bool) -> String {
+    let dn = dict_new();
+    if !dn.is_empty() && rng.chance(1, 3) { return dn[rng.below(dn.len())].clone(); }
     let d = dict();
     if !d.is_empty() && rng.chance(1, 5) { return d[rng.below(d.len())].clone(); }
     if hostile && rng.chance(1, 3) {
@@ -731,6 +739,54 @@ pub fn spine16(depths: &[usize]) -> Vec<(String, usize, Expression)> {
             t = op(Operator::And(t, E::Action(Action::Print)));
             out.push((format!("and16-{}", k), d, t));
         }
+    }
+    out
+}
+
+/// every string the change introduced (and the names that are special on a Unix system or to the scanner) as the
+/// argument of every string-carrying test and action, alone and in the usual idioms
+pub fn word_programs() -> Vec<Expression> {
+    use Expression as E;
+    let mut words: Vec<String> = dict_new().iter().filter(|w| w.chars().count() <= 40).take(80).cloned().collect();
+    for w in ["/dev/null", "/dev/stdout", "/dev/stderr", "/dev/tty", "/dev/fd/1", "/proc/self/fd/1", "-", "--", ".", "..", "/", "", "lustre", "ext4", "root", "nobody", "0", "*",
+              "stdout", "stderr", "NUL", "CON", "/dev/zero", "/tmp", "~", "$HOME"] { if !words.iter().any(|x| x == w) { words.push(w.to_string()); } }
+    let nl = || vec![FormatElement::Field(FormatField::NameWithoutStartingPoint), FormatElement::Special(FormatSpecial::Newline)];
+    let big = || E::Test(Test::Size(Comparison::GreaterThan(Size::MegaByte(100))));
+    let mut out = vec![];
+    for w in &words {
+        if w.is_empty() { continue; }
+        let w = w.clone();
+        for a in [Action::FilePrint(w.clone()), Action::FilePrintNull(w.clone()), Action::FilePrintFormatted(w.clone(), nl())] {
+            out.push(E::Action(a.clone()));
+            // the idiom: silence the default print for some files, list the others
+            out.push(op(Operator::Or(op(Operator::And(big(), E::Action(a.clone()))), E::Test(Test::Name("*.tmp".into())))));
+            out.push(op(Operator::And(op(Operator::Not(E::Action(a.clone()))), E::Test(Test::True))));
+            out.push(op(Operator::And(E::Action(a), E::Action(Action::Print))));
+        }
+        for t in [Test::Name(w.clone()), Test::InsensitiveName(w.clone()), Test::Path(w.clone()), Test::Pool(w.clone()), Test::FsType(w.clone()),
+                  Test::User(w.clone()), Test::Group(w.clone()), Test::Xattr(w.clone())] {
+            out.push(E::Test(t.clone()));
+            out.push(op(Operator::Or(op(Operator::And(E::Test(t), E::Action(Action::PrintNull))), E::Action(Action::Print))));
+        }
+    }
+    out
+}
+
+/// formats with MANY elements (n fields separated by one-character literals), ending in a newline or not, to
+/// standard output and to a file -- alone, so that one policy call emits exactly one record
+pub fn long_format_programs(sizes: &[usize]) -> Vec<(String, usize, Expression)> {
+    use Expression as E;
+    const F: &[FormatField] = &[FormatField::NameWithoutStartingPoint, FormatField::DiskSizeBytes, FormatField::UserId, FormatField::GroupId, FormatField::Hardlinks];
+    let mut out = vec![];
+    for &n in sizes {
+        let mut els = vec![];
+        while els.len() + 1 < n { els.push(FormatElement::Field(F[(els.len() / 2) % F.len()].clone())); if els.len() + 1 < n { els.push(FormatElement::Literal("|".into())); } }
+        let mut with_nl = els.clone(); with_nl.push(FormatElement::Special(FormatSpecial::Newline));
+        let mut no_nl = els.clone(); no_nl.push(FormatElement::Field(FormatField::Basename));
+        out.push((format!("fmt-nl"), n, E::Action(Action::PrintFormatted(with_nl.clone()))));
+        out.push((format!("fmt-nonl"), n, E::Action(Action::PrintFormatted(no_nl))));
+        out.push((format!("fmt-file"), n, E::Action(Action::FilePrintFormatted("A".into(), with_nl.clone()))));
+        out.push((format!("fmt-nl-print"), n, op(Operator::And(E::Action(Action::PrintFormatted(with_nl)), E::Action(Action::Print)))));
     }
     out
 }
